@@ -5,7 +5,7 @@ meta = json.loads(subprocess.check_output(["/verif/bin/check", "--meta"]))
 props = [json.loads(l) for l in open("/verif/properties.jsonl")]
 ids = [p["id"] for p in props]
 hooks = subprocess.check_output(["git", "-C", "/repo", "log", "--format=%H %s"]).decode().splitlines()
-hook_commits = [l.split()[0] for l in hooks if l.split(" ", 1)[1].startswith("hooks:")]
+hook_commits = [l.split()[0] for l in hooks if l.split(" ", 1)[1].startswith(("hooks:", "verif hook:"))]
 env = "GOFLAGS=-mod=mod GOPROXY=off GOSUMDB=off GOTOOLCHAIN=local"
 m = {
  "version": 1,
